@@ -27,7 +27,8 @@ def gen(rnd: random.Random, nsteps: int) -> dict:
             ops.append({'op': 'clean'})
         else:
             ops.append({'op': 'query', 'h': rnd.randrange(k), 'q': rnd.choice(QUERIES)})
-    return {'handles': k, 'cfg': cfg, 'ops': ops}
+    # ONE packing handle per history (C08: 'packing and cleaning through the packing handle'), not necessarily the handle that created the container
+    return {'handles': k, 'cfg': cfg, 'ops': ops, 'packer': rnd.randrange(k)}
 
 
 def run_case(case) -> tuple[str, int, dict] | None:
@@ -47,9 +48,9 @@ def run_case(case) -> tuple[str, int, dict] | None:
                 b = pool[op['i']]
                 model[hs[op['h']].add_object(b)] = b
             elif op['op'] == 'pack':
-                hs[0].pack_all_loose(compress=op['compress'], clean_loose_per_pack=op['clean_per_pack'])
+                hs[case.get('packer', 0)].pack_all_loose(compress=op['compress'], clean_loose_per_pack=op['clean_per_pack'])
             elif op['op'] == 'clean':
-                hs[0].clean_storage()
+                hs[case.get('packer', 0)].clean_storage()
             else:
                 h, q = hs[op['h']], op['q']
                 keys = sorted(model)
@@ -126,6 +127,12 @@ def fixed_cases():
                        {'op': 'pack', 'clean_per_pack': cpp, 'compress': False}, {'op': 'clean'}, {'op': 'query', 'h': 2, 'q': q2},
                        {'op': 'add', 'h': 0, 'i': 2}, {'op': 'query', 'h': 1, 'q': q2}]
                 out.append({'handles': 3, 'cfg': {'hash_type': 'sha256', 'loose_prefix_len': 2, 'pack_size_target': 4 * 1024 ** 3}, 'ops': ops})
+    # the handle that CREATED the container (init_container) is the long-open one; another handle adds, packs and cleans
+    for q1 in ['has', 'count']:
+        for q2 in ['has', 'get', 'bulk', 'meta', 'list']:
+            ops = [{'op': 'add', 'h': 1, 'i': 0}, {'op': 'query', 'h': 0, 'q': q1}, {'op': 'add', 'h': 2, 'i': 1},
+                   {'op': 'pack', 'clean_per_pack': False, 'compress': False}, {'op': 'clean'}, {'op': 'query', 'h': 0, 'q': q2}]
+            out.append({'handles': 3, 'cfg': {'hash_type': 'sha256', 'loose_prefix_len': 2, 'pack_size_target': 4 * 1024 ** 3}, 'ops': ops, 'packer': 1})
     # the same order with the zero-length object as the only thing packed in between (no pack file grows)
     for q1 in ['has', 'count', 'meta']:
         for q2 in ['has', 'get', 'bulk', 'meta']:
